@@ -603,4 +603,154 @@ theorem run_good : ∀ (as : List (PLru.Action κ)) (s s' : PLru.State κ) (tr :
 theorem sync_init (cap : Int) : Sync (PLru.init cap : PLru.State κ) := by
   intro k; simp [PLru.init, PConn.init, PConn.initB, LRU.new, Cache.find]
 
+/-! ### progress -/
+
+theorem step_strict (p p' : PConn.State κ) (a : PConn.Action κ) (evs : List (Ev κ))
+    (h : PConn.step p a = some (p', evs)) : p'.strict = p.strict := by
+  cases a with
+  | evict k =>
+    simp only [PConn.step] at h
+    repeat' (split at h)
+    all_goals first
+      | (cases h; done)
+      | (simp only [Option.some.injEq] at h; have := removeKey_strict p k; rw [h] at this; exact this)
+  | complete f =>
+    simp only [PConn.step] at h
+    repeat' (split at h)
+    all_goals first
+      | (cases h; done)
+      | (simp only [Option.some.injEq, Prod.mk.injEq] at h; obtain ⟨rfl, rfl⟩ := h
+         first
+           | exact setDone_strict _ _
+           | (rw [setDone_strict]; exact removeKey_strict _ _))
+  | finish c =>
+    simp only [PConn.step] at h
+    repeat' (split at h)
+    all_goals first
+      | (cases h; done)
+      | (simp only [Option.some.injEq, Prod.mk.injEq] at h; obtain ⟨rfl, rfl⟩ := h
+         first
+           | rfl
+           | exact evictIfMatch_strict _ _ _)
+  | lookup c | call b es | spawn c | srvPrepare f r | observe c a | cancel c | abandon c | abandonLate c | srvLate c a =>
+    simp only [PConn.step] at h
+    repeat' (split at h)
+    all_goals first
+      | (cases h; done)
+      | (simp only [Option.some.injEq, Prod.mk.injEq] at h; obtain ⟨rfl, rfl⟩ := h; rfl)
+
+theorem run_strict : ∀ (as : List (PConn.Action κ)) (p p' : PConn.State κ) (evs : List (Ev κ)),
+    PConn.run p as = some (p', evs) → p'.strict = p.strict := by
+  intro as
+  induction as with
+  | nil =>
+    intro p p' evs h
+    simp only [PConn.run, Option.some.injEq, Prod.mk.injEq] at h
+    obtain ⟨rfl, rfl⟩ := h; rfl
+  | cons a as ih =>
+    intro p p' evs h
+    simp only [PConn.run] at h
+    cases hs : PConn.step p a with
+    | none => simp [hs] at h
+    | some r =>
+      obtain ⟨p1, e1⟩ := r
+      simp only [hs] at h
+      cases hr : PConn.run p1 as with
+      | none => simp [hr] at h
+      | some r2 =>
+        obtain ⟨p2, e2⟩ := r2
+        simp only [hr, Option.some.injEq, Prod.mk.injEq] at h
+        obtain ⟨rfl, rfl⟩ := h
+        rw [ih p1 p2 e2 hr, step_strict p p1 a e1 hs]
+
+theorem lfind_of_mem : ∀ (l : List (κ × Nat)) (e : κ × Nat), (l.map (·.1)).Nodup → e ∈ l → lfind l e.1 = some e.2 := by
+  intro l
+  induction l with
+  | nil => intro e _ h; cases h
+  | cons x t ih =>
+    intro e hn he
+    obtain ⟨xk, xv⟩ := x
+    simp only [List.map_cons, List.nodup_cons] at hn
+    rcases List.mem_cons.1 he with h | h
+    · subst h; exact lfind_cons_same _ _ _
+    · have hne : xk ≠ e.1 := by
+        intro hx
+        exact hn.1 (hx ▸ List.mem_map_of_mem (f := (·.1)) h)
+      rw [lfind_cons_ne xk e.1 xv t hne]
+      exact ih e hn.2 h
+
+
+/-- **progress**: the machine with the real cache refuses no step the finite-map machine takes -/
+theorem step_progress (s : PLru.State κ) (a : PLru.Action κ) (hL : s.lru.Inv) (hS : Sync s) (hst : s.p.strict = false)
+    (h : (PConn.step s.p a.toP).isSome = true) : (PLru.step s a).isSome = true := by
+  have other : ∀ pa, (PConn.step s.p pa).isSome = true → (stepOther s pa).isSome = true := by
+    intro pa h
+    unfold stepOther
+    cases hs : PConn.step s.p pa with
+    | none => simp [hs] at h
+    | some r => rfl
+  cases a with
+  | lookup c =>
+    simp only [PLru.Action.toP] at h
+    simp only [PLru.step]
+    unfold stepLookup
+    cases hs : PConn.step s.p (.lookup c) with
+    | none => simp [hs] at h
+    | some r =>
+      obtain ⟨p1, e1⟩ := r
+      obtain ⟨k, hk, _, hcase⟩ := lookup_cache hs
+      simp only [hk]
+      cases hg : (s.lru.get k).1 with
+      | some v =>
+        have hg' : s.lru.get k = (some v, (s.lru.get k).2) := by rw [← hg]
+        rw [hg']
+        rfl
+      | none =>
+        have hg' : s.lru.get k = (none, (s.lru.get k).2) := by rw [← hg]
+        rw [hg']
+        simp only []
+        have hfind : s.lru.find k = none := by rw [← (get_find s.lru k k).1]; exact hg
+        have hp1 : ∀ k', p1.cache k' = if k' = k then some s.p.flights.length else s.p.cache k' := by
+          rcases hcase with ⟨f, hf, _⟩ | ⟨_, hc⟩
+          · rw [hS k, hfind] at hf; cases hf
+          · exact hc
+        have hst1 : p1.strict = false := by rw [step_strict _ _ _ _ hs]; exact hst
+        rcases add_evicts_lru s.lru k s.p.flights.length with hnil | ⟨_, _, _, hlast⟩
+        · rw [hnil]; rfl
+        · rw [hlast]
+          cases hl : ((k, s.p.flights.length) :: s.lru.items).getLast? with
+          | none => rfl
+          | some e =>
+            have hm : e ∈ (k, s.p.flights.length) :: s.lru.items := List.mem_of_getLast? hl
+            have hc1 : ∃ g, p1.cache e.1 = some g := by
+              rw [hp1 e.1]
+              by_cases hek : e.1 = k
+              · exact ⟨s.p.flights.length, by rw [if_pos hek]⟩
+              · rcases List.mem_cons.1 hm with h1 | h1
+                · exact absurd (by rw [h1]) hek
+                · have := lfind_of_mem s.lru.items e hL.1 h1
+                  refine ⟨e.2, ?_⟩
+                  simp only [hek, if_false]
+                  rw [hS e.1]; exact this
+            obtain ⟨g, hg1⟩ := hc1
+            simp only [Option.toList, List.map_cons, List.map_nil, evictAll, PConn.step, hst1, hg1]
+            rfl
+  | finish c =>
+    simp only [PLru.Action.toP] at h
+    simp only [PLru.step]
+    unfold stepFinish
+    cases hs : PConn.step s.p (.finish c) with
+    | none => simp [hs] at h
+    | some r => rfl
+  | call b es => exact other _ h
+  | spawn c => exact other _ h
+  | srvPrepare f r => exact other _ h
+  | complete f => exact other _ h
+  | observe c a => exact other _ h
+  | cancel c => exact other _ h
+  | abandon c => exact other _ h
+  | abandonLate c => exact other _ h
+  | srvLate c a => exact other _ h
+
+
 end C14ConnLRU
